@@ -583,6 +583,11 @@ class ISD(model.Document):
 
     # compute style properties
 
+    if isinstance(element, (model.Br, model.Text)):
+      # no style property applies to br and text nodes: the values specified on them are dropped below and must not be
+      # computed, since the references they depend on (font size, extent) do not exist here; tts:display is still honoured
+      styles_to_be_computed &= {styles.StyleProperties.Display}
+
     ISD._compute_styles(styles_to_be_computed, parent, isd_element)
 
     # prune element is display is "none"
